@@ -132,7 +132,7 @@ def run(ctx):
     for h in hs[:: max(1, len(hs) // 4)]:
         ctx.sample([x["call"] for x in h])
     ctx.cov.update(evaluations=nsteps, distinct_nontrivial=len(hs), traces_validated_against_impl=len(hs),
-                   rule="all call sequences of length %d over the 60-call alphabet of GraphStore.tla plus seeded random walks of 14 calls; "
+                   rule="all call sequences of length %d over the 63-call alphabet of GraphStore.tla plus seeded random walks of 14 calls; "
                         "after every call the complete observation (listings, lookups, adjacency in both directions x 4 label filters, "
                         "label listings, label index, timestamps of every graph) is compared with Obs of the abstract state; "
                         "distinct = distinct call sequences" % (2 if ctx.tier == "quick" else 3),
